@@ -853,6 +853,11 @@ class Interp:
     def c_np_sqrt(self, a): return self.un('Sqrt', a)
     def c_np_abs(self, a): return self.un('Abs', a)
     def c_abs(self, a): return self.un('Abs', a)
+    def c_float(self, a):
+        # float(x) of a scalar value is the identity on reals (only a representation change)
+        if is_num(a) or (isinstance(a, E) and a.kind == 's'):
+            return a
+        self.err('float() of a non-scalar value')
     def c_np_sin(self, a): return self.un('Sin', a)
     def c_np_cos(self, a): return self.un('Cos', a)
     def c_np_exp(self, a): return self.un('Exp', a)
